@@ -223,6 +223,10 @@ func mintAmount(c *Ctx, site ssa.Instruction) {
 		}
 		// flat view: the guard may sit in the top function or in any helper between it and the mint call
 		g := len(w.FlatGuarded(up.Top, func(in ssa.Instruction) bool { return in == site }, m, 2)) == 0
+		if !g {
+			// the order may come out of a list of checked orders collected beforehand
+			g = collectedGuard(c, up.E, m)
+		}
 		r.Require(g, "A2.mint-guard", key, pos(c, first), "the minting call is reachable only when the same stored order has Status == Accepted", "no such guard on every path to the call in "+fn(up.Top))
 		// id ranges over the accepted queue
 		idOK := false
